@@ -506,6 +506,19 @@ var rulePools = &core.Rule{ID: "R04.3", Min: 6,
 					if !ok {
 						continue
 					}
+					// a whole-struct overwrite of an existing state writes every field
+					if jm.isState(st.Addr.Type()) {
+						if _, fresh := st.Addr.(*ssa.Alloc); !fresh {
+							for i := 0; i < jm.stStruct.NumFields(); i++ {
+								if f == jm.reset {
+									inReset[i] = true
+								} else {
+									written[i] = append(written[i], f.Name()+" (whole-struct store)")
+								}
+							}
+						}
+						continue
+					}
 					fa, ok := st.Addr.(*ssa.FieldAddr)
 					if !ok || !jm.isState(fa.X.Type()) {
 						continue
